@@ -52,7 +52,10 @@ ROUNDS = [("/tmp/det_all.log", "round 1 (machinery as first built, commit ba9e68
           ("/tmp/try_w6a.log", "wave 5 (second half), first evaluation with the machinery frozen at commit bb3faa1 (descriptions not used)"),
           ("/tmp/try_w6b.log", "wave 5 (second half), first evaluation with the machinery frozen at commit bb3faa1 (descriptions not used)"),
           ("/tmp/try_w6c.log", "final machinery (commit 84969d3)"),
-          ("/tmp/try_w6d.log", "final machinery (commit 84969d3)")]
+          ("/tmp/try_w6d.log", "final machinery (commit 84969d3)"),
+          ("/tmp/try_w7a.log", "wave 5 (last round), first evaluation with the machinery frozen at commit 84969d3 (descriptions not used)"),
+          ("/tmp/try_w7b.log", "wave 5 (last round), first evaluation with the machinery frozen at commit 84969d3 (descriptions not used)"),
+          ("/tmp/try_w7c.log", "final machinery (commit 69f9b94)")]
 det = []
 base = os.path.basename(patchfile)
 for f, label in ROUNDS:
